@@ -57,7 +57,7 @@ oracle (corr is empty):
 Never more than the property: statement objects may be shared or not; only names, definitions and structure are compared;
 where the library refuses the explicit spelling only the same refusal is demanded of the subcircuit spelling.
 
-Recommended n: 260 (quick, ~12 s), 2600 (thorough, ~2 min).        CLI: c09_traps.py [--seed S] [--n N] [--thorough]
+Recommended n: 400 (quick, ~12 s), 5000 (thorough, ~2.5 min).       CLI: c09_traps.py [--seed S] [--n N] [--thorough]
 """
 import os, sys, json, random, signal, argparse, gc
 import copy as pycopy
@@ -1055,7 +1055,7 @@ def replay(case, driver=DEFAULT_DRIVER):
 def main():
     ap = argparse.ArgumentParser()
     ap.add_argument("--seed", type=int, default=0)
-    ap.add_argument("--n", type=int, default=260)
+    ap.add_argument("--n", type=int, default=400)
     ap.add_argument("--thorough", action="store_true")
     a = ap.parse_args()
     r = run(a.seed, a.n, thorough=a.thorough)
